@@ -260,6 +260,237 @@ def float_exact(vals):
     return all(F(float(v)) == v for v in vals)
 
 
+# ------------------------------------------------------------------ dense rings
+# Mechanism class covered: any decision of the membership test that depends on HOW MANY coordinates a ring is stored
+# with rather than on the region it bounds - a second ("fast", vectorised, indexed, simplified, sampled) code path
+# taken above some vertex count, per-ring accelerators built only for big rings, chunked loops.  The property
+# quantifies over rings "with collinear edges": putting extra vertices ON the edges changes neither the region nor the
+# exact answer, so the whole ring corpus is re-asked with 65..300 stored coordinates.  The classical weak spots of a
+# re-implemented ray cast are exactly axis-parallel edges (the on-the-ring test of a vertical / horizontal edge, the
+# division by lat2 - lat1, vertices level with the query), hence rings with many exactly vertical and horizontal edges
+# (L, U, notch, staircase, arrow, random raster traces) queried along the PROLONGATIONS of those edges (inside and
+# outside the ring, inside and outside dense holes), at inserted vertices and level with them.
+DENSE_KMAX = 64          # inserted vertices sit at j/k of an edge, k a power of two <= 64: grid coordinates stay dyadic (<= 7 decimals)
+
+
+def densify(ring, target, rng, kmax=DENSE_KMAX):
+    """open ring -> open ring bounding the same region with (room permitting) `target` vertices: the extra ones lie
+    exactly on the edges at distinct dyadic fractions (irregular spacing)"""
+    n = len(ring)
+    ks = [k for k in (2, 4, 8, 16, 32, 64, 128) if k <= kmax]
+    chosen = [set() for _ in range(n)]
+    want = min(max(0, target - n), (n * (kmax - 1) * 3) // 4)
+    got = 0
+    while got < want:
+        e, k = rng.randrange(n), rng.choice(ks)
+        fr = F(rng.randint(1, k - 1), k)
+        if fr not in chosen[e]:
+            chosen[e].add(fr)
+            got += 1
+    out = []
+    for i in range(n):
+        a, b = ring[i], ring[(i + 1) % n]
+        out.append((F(a[0]), F(a[1])))
+        for fr in sorted(chosen[i]):
+            out.append((a[0] + (b[0] - a[0]) * fr, a[1] + (b[1] - a[1]) * fr))
+    return out
+
+
+def raster(rng, transpose=False):
+    """random raster trace ('histogram') on the 0..8 grid: a base edge and columns of random widths and heights, i.e.
+    only exactly vertical and exactly horizontal edges, most of whose prolongations run through the interior"""
+    xs = [0] + sorted(rng.sample(range(1, 8), rng.randint(2, 5))) + [8]
+    hs = []
+    for _ in range(len(xs) - 1):
+        hs.append(rng.choice([h for h in range(1, 9) if not hs or h != hs[-1]]))
+    ring = [(0, 0), (8, 0)]
+    for i in reversed(range(len(hs))):
+        ring += [(xs[i + 1], hs[i]), (xs[i], hs[i])]
+    return [(y, x) for x, y in ring] if transpose else ring
+
+
+def dense_target(rng):
+    """number of stored coordinates aimed at (closing vertex included): just above 64, around 128, up to 300"""
+    t = rng.random()
+    return rng.randint(65, 96) if t < 0.5 else (rng.randint(97, 160) if t < 0.8 else rng.randint(161, 300))
+
+
+def dense_queries(ring, vring, window, rng, budget):
+    """queries for a densified ring (`ring` = corners, `vring` = with inserted vertices): every half-grid point of the
+    window on the lines through the exactly vertical and exactly horizontal edges (the edges themselves, their
+    prolongations inside and outside), points at / level with / above and below inserted vertices, edge points between
+    inserted vertices, and random half-grid points; thinned to about `budget` queries"""
+    xlo, xhi, ylo, yhi = window
+    hx = [F(x, SCALE) for x in range(xlo * SCALE, xhi * SCALE + 1)]
+    hy = [F(y, SCALE) for y in range(ylo * SCALE, yhi * SCALE + 1)]
+    n = len(ring)
+    edges = [(ring[i], ring[(i + 1) % n]) for i in range(n)]
+    prol = set()
+    for a, b in edges:
+        if a[0] == b[0]:
+            prol.update((F(a[0]), y) for y in hy)
+        if a[1] == b[1]:
+            prol.update((x, F(a[1])) for x in hx)
+    other = set()
+    corners = set(ring)
+    ins = [v for v in vring if v not in corners]
+    for v in rng.sample(ins, min(len(ins), 10)):
+        other.update([v, (v[0], rng.choice(hy)), (rng.choice(hx), v[1]), (v[0] + F(1, 2), v[1]), (v[0] - F(1, 2), v[1])])
+    m = len(vring)
+    for i in rng.sample(range(m), min(m, 8)):
+        a, b = vring[i], vring[(i + 1) % m]
+        other.add(((a[0] + b[0]) / 2, (a[1] + b[1]) / 2))
+    for v in rng.sample(ring, min(n, 3)):
+        other.update((F(v[0]), y) for y in hy)
+        other.update((x, F(v[1])) for x in hx)
+    other.update((rng.choice(hx), rng.choice(hy)) for _ in range(40))
+    other -= prol
+    prol, other = sorted(prol), sorted(other)
+    if len(prol) > budget:
+        prol = rng.sample(prol, budget)
+    other = rng.sample(other, min(len(other), max(30, budget - len(prol))))
+    return [q for q in prol + other if xlo <= q[0] <= xhi and ylo <= q[1] <= yhi]
+
+
+# ------------------------------------------------------------------ process history (look-alike questions asked first)
+# Mechanism class covered: any state kept ACROSS calls (memoised helpers, per-process or per-object caches, interned
+# segments, "last query" shortcuts) whose key is coarser than what the computation reads.  Before each judged plain
+# question the same geometry is asked through look-alike inputs, whose answers are DISCARDED (inputs carrying Z / M are
+# outside the property's quantifier, and the unchanged code is known to answer some of them differently):
+#   * twins of the shape built from coordinates that carry M, Z or both (Coordinate.__eq__/__hash__ ignore M, equality of
+#     shapes ignores more), through the constructor and through 'POLYGON M/Z/ZM' text, rotated / reversed / without the
+#     holes / with other holes;
+#   * the same query coordinate with m= / z= set, asked of the judged object itself or of an equal copy;
+#   * the same ring asked with include_boundary=True, a plain polygon sharing one edge with the ring, the shape's hole
+#     asked on its own.
+# The judged shape sits at a translation nothing else in the run uses (`fresh cell`), so that the look-alike question
+# really is the first one about these segments in the process; judged = exact reference + the Coq model as elsewhere.
+ZM_VALUES = [1.0, 2.5, -3.0, 7.0, 100.0, 0.5]
+
+HISTORY_KINDS = ['m-twin', 'm-query', 'wkt-m-twin', 'zm-twin', 'z-twin', 'm-twin-rotated', 'm-twin-reversed', 'zm-query',
+                 'z-query', 'm-twin-no-holes', 'm-twin+m-query', 'include-boundary', 'edge-neighbour', 'plain-twin-no-holes',
+                 'm-query-copy', 'wkt-zm-twin', 'hole-alone', 'm-hole-alone']
+
+
+def history_steps(kind, rng):
+    """kind -> list of JSON-able steps (see prepare_history)"""
+    pick = lambda: [rng.choice(ZM_VALUES) for _ in range(rng.choice([1, 1, 3]))]        # noqa: E731  one value for all vertices, or varying
+    tw = lambda **kw: dict({'ask': 'twin', 'z': None, 'm': None, 'via': 'coords', 'rot': 0, 'rev': False, 'holes': 'same'}, **kw)   # noqa: E731
+    qu = lambda **kw: dict({'ask': 'query', 'z': None, 'm': None, 'on': 'same'}, **kw)   # noqa: E731
+    return {
+        'm-twin': lambda: [tw(m=pick())],
+        'zm-twin': lambda: [tw(z=pick(), m=pick())],
+        'z-twin': lambda: [tw(z=pick())],
+        'wkt-m-twin': lambda: [tw(m=pick()[:1], via='wkt')],
+        'wkt-zm-twin': lambda: [tw(z=pick()[:1], m=pick()[:1], via='wkt')],
+        'm-twin-rotated': lambda: [tw(m=pick(), rot=rng.randint(1, 5))],
+        'm-twin-reversed': lambda: [tw(m=pick(), rot=rng.randint(0, 5), rev=True)],
+        'm-twin-no-holes': lambda: [tw(m=pick(), holes='none')],
+        'plain-twin-no-holes': lambda: [tw(holes='none', rot=rng.randint(0, 5))],
+        'm-query': lambda: [qu(m=rng.choice(ZM_VALUES))],
+        'm-query-copy': lambda: [qu(m=rng.choice(ZM_VALUES), on='copy')],
+        'z-query': lambda: [qu(z=rng.choice(ZM_VALUES))],
+        'zm-query': lambda: [qu(z=rng.choice(ZM_VALUES), m=rng.choice(ZM_VALUES))],
+        'm-twin+m-query': lambda: [tw(m=pick()), qu(m=rng.choice(ZM_VALUES)), tw(m=pick(), rev=True)],
+        'include-boundary': lambda: [{'ask': 'include-boundary'}],
+        'edge-neighbour': lambda: [{'ask': 'neighbour', 'edge': rng.randint(0, 50), 'side': rng.choice([-1, 1]), 'm': rng.choice([None, 2.0])}],
+        'hole-alone': lambda: [{'ask': 'hole-alone', 'm': None}],
+        'm-hole-alone': lambda: [{'ask': 'hole-alone', 'm': pick()}],
+    }[kind]()
+
+
+def build_shape(desc, zs=None, ms=None, via='coords'):
+    """desc = ('poly', raw ring as given to the constructor, holes) | ('box', nw, se, holes), holes as in mk_hole.
+    zs / ms: None or a list of non-zero values handed out cyclically to the vertices (outline, holes, box corners); the
+    closing vertex of a ring is the object of its first vertex."""
+    cnt = [0]
+
+    def co(p):
+        k = cnt[0]
+        cnt[0] += 1
+        return Coordinate(float(p[0]), float(p[1]), z=zs[k % len(zs)] if zs else None, m=ms[k % len(ms)] if ms else None)
+
+    def ring_coords(r, close):
+        o = open_ring(list(r))
+        cs = [co(v) for v in o]
+        return cs + [cs[0]] if (close or len(o) < len(r)) else cs
+
+    def hole(h):
+        if h[0] == 'poly':
+            return GeoPolygon(ring_coords(h[1], True), _is_hole=h[2])
+        return GeoBox(co(h[1]), co(h[2]))
+
+    holes = desc[-1]
+    if via == 'wkt':
+        # 'POLYGON M ((x y m, ...), (hole ...))': box holes are written as rings; one value per dimension
+        dims = ('Z' if zs else '') + ('M' if ms else '')
+        vals = ([zs[0]] if zs else []) + ([ms[0]] if ms else [])
+        rings = [open_ring(list(desc[1]))] if desc[0] == 'poly' else [[desc[1], (desc[2][0], desc[1][1]), desc[2], (desc[1][0], desc[2][1])]]
+        for h in holes:
+            rings.append(list(h[1]) if h[0] == 'poly' else [h[1], (h[2][0], h[1][1]), h[2], (h[1][0], h[2][1])])
+        txt = ', '.join('(' + ', '.join(' '.join(repr(float(c)) for c in (*v, *vals)) for v in r + r[:1]) + ')' for r in rings)
+        return GeoPolygon.from_wkt(f'POLYGON {dims} ({txt})'.replace('  ', ' '))
+    hs = [hole(h) for h in holes] or None
+    if desc[0] == 'poly':
+        return GeoPolygon(ring_coords(desc[1], False), holes=hs)
+    return GeoBox(co(desc[1]), co(desc[2]), holes=hs)
+
+
+def prepare_history(steps, desc, obj):
+    """-> list of functions q -> None that ask the look-alike questions of `steps` about the query q (answers are
+    discarded, exceptions too: a look-alike the library cannot build or answer is simply not part of the history)"""
+    asks = []
+
+    def both(shape):
+        def f(c):
+            shape.contains_coordinate(c)
+            if isinstance(shape, GeoPolygon):
+                GeoPolygon._point_in_polygon(c, shape.outline)
+        return f
+
+    for st in steps:
+        fn = None
+        try:
+            if st['ask'] == 'twin':
+                d = desc
+                if desc[0] == 'poly' and (st['rot'] or st['rev']):
+                    o = open_ring(list(desc[1]))
+                    d = ('poly', variant(o, st['rot'] % len(o), st['rev'], True), desc[2])
+                if st['holes'] == 'none':
+                    d = (*d[:-1], [])
+                g = both(build_shape(d, st['z'], st['m'], st['via']))
+                fn = lambda q, g=g: g(C(q))                                                        # noqa: E731
+            elif st['ask'] == 'query':
+                g = both(obj if st['on'] == 'same' else build_shape(desc))
+                fn = lambda q, g=g, st=st: g(Coordinate(float(q[0]), float(q[1]), z=st['z'], m=st['m']))   # noqa: E731
+            elif st['ask'] == 'include-boundary':
+                rings = ([obj.outline] if isinstance(obj, GeoPolygon) else []) + [h.outline for h in obj.holes if isinstance(h, GeoPolygon)]
+                fn = lambda q, rings=rings: [GeoPolygon._point_in_polygon(C(q), r, include_boundary=True) for r in rings]   # noqa: E731
+            elif st['ask'] == 'neighbour':
+                # a plain (or M-carrying) parallelogram that has one edge of the shape as its side
+                o = open_ring(list(desc[1])) if desc[0] == 'poly' else [desc[1], (desc[2][0], desc[1][1]), desc[2], (desc[1][0], desc[2][1])]
+                a, b = o[st['edge'] % len(o)], o[(st['edge'] + 1) % len(o)]
+                nx, ny = (b[1] - a[1]) * st['side'], (a[0] - b[0]) * st['side']
+                g = both(build_shape(('poly', [a, b, (b[0] + nx, b[1] + ny), (a[0] + nx, a[1] + ny)], []), None, [st['m']] if st['m'] else None))
+                fn = lambda q, g=g: g(C(q))                                                        # noqa: E731
+            elif st['ask'] == 'hole-alone':
+                gs = [both(build_shape((('poly', h[1], []) if h[0] == 'poly' else ('box', h[1], h[2], [])), None, st['m'])) for h in desc[-1]]
+                fn = lambda q, gs=gs: [g(C(q)) for g in gs]                                        # noqa: E731
+        except Exception:                                                                       # noqa: BLE001
+            fn = None
+        if fn is not None:
+            asks.append(fn)
+    return asks
+
+
+def ask_history(asks, q):
+    for f in asks:
+        try:
+            f(q)
+        except Exception:                                                                       # noqa: BLE001
+            pass
+
+
 def main():
     ck = Check('C01')
     ck.build_theories(['theories/Props/C01.vo', 'theories/Props/C01b.vo', 'theories/Corr/GeomK.vo'])
@@ -289,10 +520,11 @@ def main():
     GX = (-1, 9, -1, 9)
     gpts = grid_points(*GX)
 
-    def grid_case(name, ring, rot, rev, closed, holes, GX=GX, gpts=gpts):
+    def grid_case(name, ring, rot, rev, closed, holes, GX=GX, gpts=gpts, history=None):
         nonlocal n_eval
         raw = variant(ring, rot, rev, closed)
         poly, hm = mk_poly(raw, holes)
+        asks = prepare_history(history[1], ('poly', raw, holes), poly) if history else []
         if (rot + len(holes) + len(raw)) % 2 == 0:
             # membership is a function of the polygon and the coordinate: on every other case the same object has first
             # been converted, measured, hashed and exported (which fills its caches)
@@ -307,6 +539,7 @@ def main():
         o1, o2 = [], []
         i = len(cases)
         for q in gpts:
+            ask_history(asks, q)           # look-alike questions first (answers discarded), then the judged plain one
             c = C(q)
             a = GeoPolygon._point_in_polygon(c, poly.outline)
             b = poly.contains_coordinate(c)
@@ -321,14 +554,15 @@ def main():
             if b != want:
                 prop_bad.append((i, {'query': [str(q[0]), str(q[1])], 'contains_coordinate': b, 'exact_reference': want,
                                      'position_wrt_outer': st}))
-            if not holes and a != (st == 'in'):
+            if a != (st == 'in'):
                 prop_bad.append((i, {'query': [str(q[0]), str(q[1])], '_point_in_polygon': a, 'exact_reference': st}))
         add(f'KGrid {zlit(W)} {ringlit(stored)} {listlit([holelit(m) for m in hm])} '
             f'{zlit(GX[0] * SCALE)} {zlit(GX[1] * SCALE)} {zlit(GX[2] * SCALE)} {zlit(GX[3] * SCALE)} '
             f'{boollist(o1)} {boollist(o2)}',
-            {'k': 'grid', 'ring': name, 'outline': [[str(x), str(y)] for x, y in ring], 'rot': rot, 'rev': rev, 'closed': closed,
-             'holes': [hole_json(h) for h in holes], 'grid': GX, 'raw': [[str(x), str(y)] for x, y in raw]})
-        ck.count('grid:' + ('holes' if holes else 'plain'))
+            dict({'k': 'grid', 'ring': name, 'outline': [[str(x), str(y)] for x, y in ring], 'rot': rot, 'rev': rev, 'closed': closed,
+                  'holes': [hole_json(h) for h in holes], 'grid': GX, 'raw': [[str(x), str(y)] for x, y in raw]},
+                 **({'history': {'kind': history[0], 'asked_before_each_query': history[1]}} if history else {})))
+        ck.count(('history:' + history[0]) if history else ('grid:' + ('holes' if holes else 'plain')))
 
     for name, ring in rings:
         n = len(ring)
@@ -555,6 +789,181 @@ def main():
             d = (c[0], rng.randint(0, m))             # vertical
         fli_case((a, b), (c, d))
 
+    # ---------------------------------------------------------------- translations nothing else in the run uses
+    # 11 x 11 degree cells (the [-1, 9]^2 window of the grid corpus fits in one), away from the origin window, the random
+    # star area [0, 62.5]^2 and the -180 rings; handed out without replacement
+    cells = [(ox, oy) for ox in range(-170, 161, 11) for oy in range(-80, 71, 11)
+             if not (-13 <= ox <= 64 and -13 <= oy <= 64)]
+    rng.shuffle(cells)
+
+    def translate_hole(h, ox, oy):
+        if h[0] == 'poly':
+            return ('poly', [(v[0] + ox, v[1] + oy) for v in h[1]], h[2])
+        return ('box', (h[1][0] + ox, h[1][1] + oy), (h[2][0] + ox, h[2][1] + oy))
+
+    # ---------------------------------------------------------------- dense rings (see densify)
+    def dense_case(name, ring, holes, target, rot, rev, closed, dense_outline=True, dense_holes=False, history=None, off=(0, 0)):
+        """ring / holes on the 0..8 grid (moved by `off`); the library gets the outline and / or the polygon holes with inserted
+        collinear vertices; the exact reference is evaluated on the corners only"""
+        nonlocal n_eval
+        ox, oy = off
+        ring = [(F(x) + ox, F(y) + oy) for x, y in ring]
+        holes = [translate_hole(h, ox, oy) for h in holes]
+        vring = densify(ring, target - 1, rng) if dense_outline else ring
+        vholes = [('poly', densify(h[1], dense_target(rng) - 1, rng), h[2]) if dense_holes and h[0] == 'poly' else h for h in holes]
+        window = (ox - 1, ox + 9, oy - 1, oy + 9)
+        nstored = max([len(vring)] + [len(h[1]) for h in vholes if h[0] == 'poly']) + 1
+        budget = max(60, (40000 if thorough else 32000) // nstored)
+        qs = set(dense_queries(ring, vring, window, rng, budget))
+        for h, vh in zip(holes, vholes):
+            if h[0] == 'poly':
+                qs.update(dense_queries(h[1], vh[1], window, rng, budget // 2))
+        qs = sorted(qs)
+        coords = [c for v in vring + qs for c in v] + [c for h in vholes for v in (h[1] if h[0] == 'poly' else h[1:]) for c in v]
+        assert float_exact(coords), name
+        s = common_scale(coords)
+        raw = variant(vring, rot % len(vring), rev, closed)
+        poly, hm = mk_poly(raw, vholes)
+        asks = prepare_history(history[1], ('poly', raw, vholes), poly) if history else []
+        if (rot + len(raw)) % 2 == 0:
+            guarded(lambda: (poly.bounds, poly.area, poly.centroid, hash(poly), poly.to_wkt()))
+        stored = outline_of(poly)
+        add(f'KNorm false {ringlit(raw, s)} {ringlit(stored, s)}',
+            {'k': 'norm', 'ring': name, 'stored_coordinates': len(stored), 'raw': [list(map(str, v)) for v in raw]})
+        for vh, m in zip(vholes, hm):
+            if vh[0] == 'poly' and dense_holes:
+                add(f'KNorm {blit(vh[2])} {ringlit(vh[1] + [vh[1][0]], s)} {ringlit(m[2], s)}', {'k': 'norm-hole', 'hole': str(vh)})
+        outs = []
+        i = len(cases)
+        for q in qs:
+            ask_history(asks, q)
+            c = C(q)
+            a = GeoPolygon._point_in_polygon(c, poly.outline)
+            b = poly.contains_coordinate(c)
+            outs.append((q, a, b))
+            n_eval += 1
+            st = ref_ring(q, ring)
+            if st == 'boundary' or any(v[1] == q[1] or v[0] == q[0] for v in ring) or any(
+                    hh[0] == 'poly' and any(v[1] == q[1] or v[0] == q[0] for v in hh[1]) for hh in holes):
+                nontrivial.add((name, len(stored), rot, rev, closed, len(holes), q))
+            want = ref_poly(q, ring, holes)
+            if b != want:
+                prop_bad.append((i, {'query': [str(q[0]), str(q[1])], 'contains_coordinate': b, 'exact_reference': want,
+                                     'position_wrt_outer': st, 'stored_coordinates_of_outline': len(stored)}))
+            if a != (st == 'in'):
+                prop_bad.append((i, {'query': [str(q[0]), str(q[1])], '_point_in_polygon': a, 'exact_reference': st,
+                                     'stored_coordinates_of_outline': len(stored)}))
+        add(f'KPts {zlit(-180 * s)} {ringlit(stored, s)} {listlit([holelit(m, s) for m in hm])} '
+            + listlit([f'({ptlit(q, s)}, {blit(a)}, {blit(b)})' for q, a, b in outs]),
+            dict({'k': 'pts', 'ring': name, 'stored_coordinates': len(stored),
+                  'stored_coordinates_of_holes': [len(m[2]) for m in hm if m[0] == 'poly'],
+                  'outline': [[str(x), str(y)] for x, y in ring], 'rot': rot, 'rev': rev, 'closed': closed,
+                  'raw': [[str(x), str(y)] for x, y in raw], 'holes': [hole_json(h) for h in vholes], 'scale': s,
+                  'queries': [[str(q[0]), str(q[1]), a, b] for q, a, b in outs]},
+                 **({'history': {'kind': history[0], 'asked_before_each_query': history[1]}} if history else {})))
+        ck.count(('history:' + history[0] + ':dense') if history else
+                 ('dense:' + ('outline' if dense_outline else '') + ('+holes' if dense_holes else ('+sparse-holes' if holes else ''))))
+        ck.count('dense-size:' + ('65-96' if nstored <= 96 else '97-160' if nstored <= 160 else '161-300'))
+
+    AXIS = ['square', 'square+collinear', 'L', 'U', 'stairs', 'arrow', 'notch']       # fixed rings with exactly vertical / horizontal edges
+    fixed = dict(FIXED_RINGS)
+    dense_pool = [(nm, fixed[nm]) for nm in AXIS] + [(f'raster{k}', raster(rng, k % 2 == 1)) for k in range(12 if thorough else 4)]
+    dense_sel = dense_pool + (rings if thorough else rng.sample([r for r in rings if r[0] not in AXIS], 3))
+    for k, (name, ring) in enumerate(dense_sel):
+        for _ in range(2 if thorough and k < len(dense_pool) else 1):
+            dense_case(name, ring, [], dense_target(rng), rng.randrange(4 * len(ring)), rng.random() < 0.5, rng.random() < 0.5)
+    # dense holes in sparse and dense hosts: a query strictly inside a dense hole, on the prolongation of one of its edges, is excluded
+    HOLE_U = ('poly', [(1, 1), (7, 1), (7, 3), (3, 3), (3, 5), (7, 5), (7, 7), (1, 7)], False)
+    HOLE_STAIRS = ('poly', [(1, 1), (7, 1), (7, 3), (5, 3), (5, 5), (3, 5), (3, 7), (1, 7)], True)
+    dense_hole_sets = [[HOLE_L], [HOLE_U], [HOLE_STAIRS], [HOLE_L, HOLE_NOTCH], [HOLE_LIB[3], HOLE_LIB[2]], [HOLE_LIB[1]],
+                       [HOLE_LIB[3], HOLE_LIB[4]], [HOLE_T1, HOLE_T2]]
+    for hs in (dense_hole_sets if thorough else rng.sample(dense_hole_sets[:3], 2) + rng.sample(dense_hole_sets[3:], 2)):
+        nm = rng.choice(['square', 'square+collinear'])
+        dense_case(nm, fixed[nm], hs, dense_target(rng), rng.randrange(16), rng.random() < 0.5, True,
+                   dense_outline=rng.random() < 0.5, dense_holes=True)
+    # a box with dense polygon holes (exact reference only: the box case of the correspondence enumerates unit steps)
+    for hs in (dense_hole_sets[:5] if thorough else rng.sample(dense_hole_sets[:5], 2)):
+        vhs = [('poly', densify(h[1], dense_target(rng) - 1, rng), h[2]) if h[0] == 'poly' else h for h in hs]
+        hobj = [mk_hole(h) for h in vhs]
+        nw, se = (0, 8), (8, 0)
+        box = GeoBox(C(nw), C(se), holes=[o for o, _ in hobj])
+        nst = max(len(h[1]) for h in vhs if h[0] == 'poly') + 1
+        qs = set()
+        for h, vh in zip(hs, vhs):
+            if h[0] == 'poly':
+                qs.update(dense_queries(h[1], vh[1], GX, rng, max(60, 32000 // nst)))
+        for q in sorted(qs):
+            b = box.contains_coordinate(C(q))
+            n_eval += 1
+            want = ref_box(q, nw, se, hs)
+            if b != want and len(prop_box_bad) < 5:
+                prop_box_bad.append(({'k': 'box', 'nw': [str(nw[0]), str(nw[1])], 'se': [str(se[0]), str(se[1])],
+                                      'holes': [hole_json(h) for h in vhs], 'stored_coordinates_of_holes': [len(m[2]) for _, m in hobj if m[0] == 'poly'],
+                                      'scale': common_scale([*q] + [c for h in vhs for v in (h[1] if h[0] == 'poly' else h[1:]) for c in v])},
+                                     {'query': [str(q[0]), str(q[1])], 'contains_coordinate': b, 'exact_reference': want}))
+        ck.count('dense:box+holes')
+
+    # ---------------------------------------------------------------- process history (see HISTORY_KINDS)
+    # every kind of look-alike comes first in at least one case of the run (the first question about a segment is the one a
+    # memo keeps); shapes: the grid corpus (rings, rings with holes, boxes with holes, a few dense rings), each in its own cell
+    hist_rings = rings[:len(FIXED_RINGS)]
+    kinds = list(HISTORY_KINDS) * (3 if thorough else 1)
+    rng.shuffle(kinds)
+    kinds += [rng.choice(HISTORY_KINDS[:5]) for _ in range(12 if thorough else 6)]          # the M / Z twins and queries once more
+    for j, kind in enumerate(kinds):
+        ox, oy = cells.pop()
+        steps = history_steps(kind, rng)
+        if rng.random() < 0.3:
+            steps = steps + history_steps(rng.choice(HISTORY_KINDS), rng)                   # a second look-alike after the first
+        hist = (kind, steps)
+        needs_holes = 'hole' in kind
+        t = rng.random()
+        if t < 0.15 and not needs_holes:
+            # dense ring
+            name, ring = rng.choice(dense_pool)
+            dense_case(name, ring, [], rng.randint(65, 100), rng.randrange(4 * len(ring)), rng.random() < 0.5, True,
+                       history=hist, off=(ox, oy))
+        elif t < 0.4 or (needs_holes and t < 0.7):
+            # a box with polygon / box holes
+            nw, se = ((0, 8), (8, 0)) if needs_holes or rng.random() < 0.5 else rng.choice(boxes[:2])
+            hs = rng.choice([[HOLE_LIB[0]], [HOLE_LIB[1]], [HOLE_LIB[1], HOLE_LIB[5]], [HOLE_L, HOLE_NOTCH], [HOLE_LIB[3], HOLE_LIB[4]]]
+                            + ([] if needs_holes else [[]]))
+            nw, se = (nw[0] + ox, nw[1] + oy), (se[0] + ox, se[1] + oy)
+            hs = [translate_hole(h, ox, oy) for h in hs]
+            hobj = [mk_hole(h) for h in hs]
+            box = GeoBox(C(nw), C(se), holes=[o for o, _ in hobj] or None)
+            asks = prepare_history(steps, ('box', nw, se, hs), box)
+            gx = (ox - 1, ox + 9, oy - 1, oy + 9)
+            outs = []
+            i = len(cases)
+            for q in grid_points(*gx):
+                ask_history(asks, q)
+                b = box.contains_coordinate(C(q))
+                outs.append(b)
+                n_eval += 1
+                if q[0] in (nw[0], se[0]) or q[1] in (nw[1], se[1]) or any(
+                        hh[0] == 'poly' and (ref_ring(q, hh[1]) == 'boundary' or any(v[1] == q[1] for v in hh[1])) for hh in hs):
+                    nontrivial.add(('box', kind, nw, se, len(hs), q))
+                want = ref_box(q, nw, se, hs)
+                if b != want:
+                    prop_bad.append((i, {'query': [str(q[0]), str(q[1])], 'contains_coordinate': b, 'exact_reference': want}))
+            add(f'KBoxGrid {zlit(W)} {ptlit(nw)} {ptlit(se)} {listlit([holelit(m) for _, m in hobj])} '
+                f'{zlit(gx[0] * SCALE)} {zlit(gx[1] * SCALE)} {zlit(gx[2] * SCALE)} {zlit(gx[3] * SCALE)} {boollist(outs)}',
+                {'k': 'box', 'nw': [str(nw[0]), str(nw[1])], 'se': [str(se[0]), str(se[1])], 'holes': [hole_json(h) for h in hs], 'grid': gx,
+                 'history': {'kind': kind, 'asked_before_each_query': steps}})
+            ck.count('history:' + kind + ':box')
+        else:
+            if needs_holes or t > 0.8:
+                name, ring = rng.choice(hosts)
+                hs = rng.choice(combos + (OVERLAPPING_EXTENTS if name.startswith('square') else []))
+            else:
+                (name, ring), hs = rng.choice(hist_rings + rings[len(FIXED_RINGS):]), []
+            ring = [(x + ox, y + oy) for x, y in ring]
+            hs = [translate_hole(h, ox, oy) for h in hs]
+            gx = (ox - 1, ox + 9, oy - 1, oy + 9)
+            grid_case(name, ring, rng.randrange(len(ring)), rng.random() < 0.5, rng.random() < 0.7, hs, GX=gx, gpts=grid_points(*gx),
+                      history=hist)
+
     ck.cov['evaluations'] = n_eval
     ck.cov['distinct_nontrivial'] = len(nontrivial)
     for i in (1, len(cases) // 2, len(cases) - 1):
@@ -618,8 +1027,16 @@ def main():
                    'longitude extents 160..352 degrees - below, exactly and above 180 - mostly eastern, mostly western and straddling '
                    'the prime meridian, never crossing +-180; long edges carry intermediate collinear vertices so that no edge spans more '
                    'than 180 degrees; boxes wider than a hemisphere against the exact reference only); '
-                   'find_line_intersection on random small segments. Non-trivial = distinct (shape variant, query) with the '
-                   'query on a boundary or level with a vertex.',
+                   'find_line_intersection on random small segments; DENSE rings: axis-parallel fixed rings (square, L, U, notch, '
+                   'stairs, arrow), seeded raster traces and stars with collinear vertices inserted at dyadic fractions of their edges up '
+                   'to 65..300 stored coordinates (also dense polygon holes in sparse / dense hosts and in boxes), queried along the lines '
+                   'through every exactly vertical / horizontal edge (edge, prolongations inside and outside), at and level with inserted '
+                   'vertices and at random half-grid points, judged by the exact reference on the corners and by the model on the stored '
+                   'ring; PROCESS HISTORY: the grid corpus (rings, holes, boxes with holes, dense rings) at translations nothing else '
+                   'uses, every judged plain question preceded by look-alike questions whose answers are discarded (twins carrying M / Z / '
+                   'both via constructor and POLYGON M/ZM text, rotated, reversed, without holes; the query with m= / z=; '
+                   'include_boundary=True; an edge-sharing neighbour; the hole alone). Non-trivial = distinct (shape variant, query) '
+                   'with the query on a boundary or level with a vertex (dense: also on the line through a vertex).',
               assumptions=['IEEE double arithmetic of the implementation is exact on the integer/half-integer grids used (DESIGN section 3)',
                            'the even-odd interior of a simple ring is its topological interior (Jordan curve theorem for polygons), not proved',
                            'no edge spans more than 180 degrees of longitude (ensure_edge_bounds is the identity; shapes spanning the '
@@ -652,14 +1069,20 @@ def replay(path):
         obj, hm = mk_poly(raw, holes)
         model = f'poly_contains {zlit(w)} {ringlit(outline_of(obj), scale)} {listlit([holelit(h, scale) for h in hm])}'
         ref = lambda q: ref_poly(q, ring, holes)                                 # noqa: E731
+        desc = ('poly', raw, holes)
     elif m.get('k') == 'box':
         nw, se = (F(m['nw'][0]), F(m['nw'][1])), (F(m['se'][0]), F(m['se'][1]))
         hobj = [mk_hole(h) for h in holes]
         obj = GeoBox(C(nw), C(se), holes=[o for o, _ in hobj] or None)
         model = f'box_contains {zlit(w)} {ptlit(nw, scale)} {ptlit(se, scale)} {listlit([holelit(h, scale) for _, h in hobj])}'
         ref = lambda q: ref_box(q, nw, se, holes)                                # noqa: E731
+        desc = ('box', nw, se, holes)
     else:
         return
+    # a case of the process-history family: the look-alike questions are asked again before each query
+    asks = prepare_history(m['history']['asked_before_each_query'], desc, obj) if m.get('history') else []
+    if asks:
+        print(f"history '{m['history']['kind']}': {len(asks)} look-alike question(s) asked before each query, answers discarded")
     qs = [(F(q[0]), F(q[1])) for q in qs]
     with tempfile.TemporaryDirectory() as td:
         fn = os.path.join(td, 'replay.v')
@@ -671,6 +1094,7 @@ def replay(path):
     mvals = re.findall(r'\b(true|false)\b', out.split(':')[0]) if '=' in out else []
     shown = 0
     for k, q in enumerate(qs):
+        ask_history(asks, q)
         impl = obj.contains_coordinate(C(q))
         mv = mvals[k] if k < len(mvals) else '?'
         want = ref(q)
